@@ -7,7 +7,7 @@ CLAIM = ("Real src/list.c (every column handler, heading, separator and footer o
          "byte written - format literal, %s / %c argument byte, padding, hex digit - is in {0x20..0x7E, LF, CR, TAB}; lha_arch_vasprintf "
          "is modelled by the same interpreter so that the real safe_output() rewrites the real formatted string. safe.output additionally "
          "proves, for ALL strings of up to 6 bytes, that safe_output/safe_printf/safe_fprintf preserve the length, leave printable bytes "
-         "unchanged and write '?' for every other byte.")
+         "unchanged and write '?' for every other byte; safe.output.long repeats that for formatted output of 253..257 bytes (253 concrete filler bytes + all strings of <= 4 bytes), i.e. across a 256-byte formatting-buffer threshold.")
 ASSUMPTIONS = [
     "header strings up to the stated length (3 bytes; 2 for the extract directory given on the command line; 5-6 for bare path strings)",
     "decimal / floating-point conversions (%d %i %u %lu %5.1f) are not rendered: their digits, sign, point and padding are printable by construction (libc trusted)",
